@@ -267,3 +267,71 @@ def flows_from_calls(g: CFG, n: Node, e: ast.AST, calls, depth: int = 3) -> bool
                 if src is not None and flows_from_calls(g, d, src, calls, depth - 1):
                     return True
     return False
+
+
+# --------------------------------------------------------------------------
+# order provenance (ALIGN): which ordered source does a sequence take its order/length from?
+# --------------------------------------------------------------------------
+
+_ORDER_KEEP = {"list", "tuple", "dict", "iter"}
+_ORDER_BREAK = {"sorted", "set", "frozenset", "reversed", "shuffle"}
+
+
+def order_source(g: CFG, n: Node, e: ast.AST, fn_has_param, depth: int = 24) -> Set[str]:
+    """Canonical description(s) of the ordered source a sequence expression gets its element
+    order and length from, flow-sensitively at node n.  Two sequences are positionally aligned
+    when their order sources are the same single `param:`/`call:` source."""
+    if depth <= 0:
+        return {"unknown:depth"}
+    if isinstance(e, ast.Name):
+        defs = reaching_defs(g, n.id, e.id)
+        if not defs:
+            return {f"param:{e.id}"} if fn_has_param(e.id) else {f"free:{e.id}"}
+        out: Set[str] = set()
+        for d in defs:
+            if d.kind == "for" or d.kind == "with":
+                out.add(f"unknown:{d.text()[:50]}")
+                continue
+            v = getattr(d.ast, "value", None)
+            if v is None:
+                out.add(f"unknown:{d.text()[:50]}")
+            elif isinstance(d.ast, ast.Assign) and isinstance(d.ast.targets[0], (ast.Tuple, ast.List)):
+                # a, b = zip(*rows): both take the order of rows
+                if isinstance(v, ast.Call) and isinstance(v.func, ast.Name) and v.func.id == "zip" and len(v.args) == 1 and isinstance(v.args[0], ast.Starred):
+                    out |= order_source(g, d, v.args[0].value, fn_has_param, depth - 1)
+                elif isinstance(v, ast.Tuple) and all(isinstance(x, (ast.Tuple, ast.List)) and not x.elts for x in v.elts):
+                    out.add("empty")
+                else:
+                    out.add(f"unknown:{d.text()[:50]}")
+            else:
+                out |= order_source(g, d, v, fn_has_param, depth - 1)
+        return out
+    if isinstance(e, ast.Call):
+        f = e.func
+        if isinstance(f, ast.Name) and f.id in _ORDER_KEEP and len(e.args) == 1:
+            return order_source(g, n, e.args[0], fn_has_param, depth - 1)
+        if isinstance(f, ast.Name) and f.id in _ORDER_BREAK:
+            return {f"reordered:{ast.unparse(e)[:60]}"}
+        if isinstance(f, ast.Attribute) and f.attr in ("items", "keys", "values", "copy") and not e.args:
+            return order_source(g, n, f.value, fn_has_param, depth - 1)
+        return {f"call:{ast.unparse(e)[:80]}"}
+    if isinstance(e, (ast.ListComp, ast.GeneratorExp, ast.DictComp, ast.SetComp)):
+        if isinstance(e, ast.SetComp):
+            return {f"reordered:{ast.unparse(e)[:60]}"}
+        if len(e.generators) != 1 or e.generators[0].ifs:
+            return {f"filtered:{ast.unparse(e)[:60]}"}
+        gen = e.generators[0]
+        if isinstance(e, ast.DictComp):
+            # length/order preserved only if the key is (an injective image of) the loop element
+            tnames = {x.id for x in ast.walk(gen.target) if isinstance(x, ast.Name)}
+            k = e.key
+            key_ok = (isinstance(k, ast.Name) and k.id in tnames) or (
+                isinstance(k, ast.JoinedStr) and any(isinstance(x, ast.Name) and x.id in tnames for x in ast.walk(k)))
+            if not key_ok:
+                return {f"collapsed:{ast.unparse(e)[:60]}"}
+        return order_source(g, n, gen.iter, fn_has_param, depth - 1)
+    if isinstance(e, (ast.List, ast.Tuple)) and not e.elts:
+        return {"empty"}
+    if isinstance(e, ast.Starred):
+        return order_source(g, n, e.value, fn_has_param, depth - 1)
+    return {f"unknown:{ast.unparse(e)[:60]}"}
